@@ -65,3 +65,18 @@ add("C15",
     "read-only / failing operations on the real default database are recorded and validated as a trace (digest unchanged, warm = fresh).",
     "Bounded as C14. The caches are projected from the two private attributes the property's anchors name.",
     "DESIGN.md 6/C15")
+
+add("C17",
+    "TLC model check of the manager machine (USM.tla: one action per public call, callback log as predicted history variable) + replay of "
+    "every generated transition and of tlc -simulate behaviours into UnitSystemManager with recording listeners",
+    "USM.tla specifies ids, current/null system, template coverage, ownership of mappings and the exact callback log; TLC checks on every "
+    "reachable state/transition of the bounded instance that ids are unique, the current system is registered or null, adding while none is "
+    "current selects the new system, removing the current one selects another or none, acceptance requires template coverage, a rejected call "
+    "changes nothing, listeners are notified exactly for changes of current and for default-unit changes of the current system, and a change "
+    "through one system changes no other. Every generated transition (BFS-shortest history) and thousands of random deep behaviours of the "
+    "same specification are replayed on a fresh manager: outcome, ids in order, current, every mapping, template, the callback log and the "
+    "caller's own dicts (passed as the same object for the same literal) are compared with the prediction; ConvertToCurrent / "
+    "ConvertScalarToCurrent results are compared on the real default database.",
+    "Bounded: 3 ids, 2 mutable categories + 1 query-only category, 4 units, 3 mapping literals; depth 4 (quick) / 6 (thorough) model check; "
+    "SetCurrent selects registered systems or None; re-selection may notify (the code does).",
+    "DESIGN.md 6/C17")
